@@ -1836,15 +1836,19 @@ impl<'a, R: FileManager> FrontendCtx<'a, R> {
         &mut self,
         q: &TsEntityName,
         file: BffFileName,
+        // `q` is looked up in `file`, but it is written in `syntax_file` (they differ for
+        // `import("./x").A.B`): diagnostics about it belong to the file its span is in.
+        syntax_file: &BffFileName,
     ) -> Res<AddressedQualifiedType> {
         match q {
             TsEntityName::TsQualifiedName(ts_qualified_name) => {
                 let left_part = self.get_adressed_qualified_type_from_entity_name(
                     &ts_qualified_name.left,
                     file.clone(),
+                    syntax_file,
                 )?;
                 let anchor = Anchor {
-                    f: file.clone(),
+                    f: syntax_file.clone(),
                     s: ts_qualified_name.span(),
                 };
                 match left_part {
@@ -1867,7 +1871,7 @@ impl<'a, R: FileManager> FrontendCtx<'a, R> {
                     Visibility::Local,
                 );
                 let anchor = Anchor {
-                    f: file.clone(),
+                    f: syntax_file.clone(),
                     s: ident.span,
                 };
                 let type_addressed = self.get_addressed_qualified_type(&addr, &anchor)?;
@@ -1934,6 +1938,7 @@ impl<'a, R: FileManager> FrontendCtx<'a, R> {
                 let qualified_type = self.get_adressed_qualified_type_from_entity_name(
                     &ts_qualified_name.left,
                     file.clone(),
+                    &anchor.f,
                 )?;
 
                 let new_addr = match qualified_type {
